@@ -8,7 +8,7 @@ pid=$1; tag=$2; demopath=$3; demorun=$4; shift 4
 out=/tmp/seed-$pid-$tag-out
 export GOFLAGS=-mod=mod GOPROXY=off GOSUMDB=off GOTOOLCHAIN=local
 W=$(mktemp -d /tmp/wt-seed-XXXXXX); rmdir $W
-git -C /repo worktree add -q --detach $W HEAD || exit 2
+git -C /repo worktree add -q --detach $W ${SEED_BASE:-HEAD} || exit 2   # SEED_BASE pins the commit while /repo moves on
 VERIF_ALT_OUT=$(mktemp -d /tmp/verif-alt-XXXXXX); export VERIF_ALT_OUT  # private: several evaluations may run side by side
 trap 'git -C /repo worktree remove --force $W >/dev/null 2>&1; rm -rf "$VERIF_ALT_OUT"' EXIT
 demo=${DEMOFILE:-}; [ -n "$demo" ] || demo=$(ls $out/demo_test.go $out/demo*_test.go $out/demo/main.go 2>/dev/null | head -1)
